@@ -16,8 +16,9 @@ INFO = {
 
 
 # ------------------------------------------------------------------------------------------------ concrete contract
-def check_index(w, idx):
-    """Run-time form of the _slice_inner contract on a Signal of width w. -> None | (clause, detail)"""
+def check_index(w, idx, parent=None):
+    """Run-time form of the _slice_inner contract on a Signal of width w (a fresh one, or `parent`, which may already
+    have been indexed before). -> None | (clause, detail)"""
     import hdl21 as h
     from hdl21.slice import _slice_inner
     expect = None
@@ -28,7 +29,7 @@ def check_index(w, idx):
         expect = []
     except ValueError:      # zero step
         expect = []
-    s = h.Signal(width=w)
+    s = parent if parent is not None else h.Signal(width=w)
     try:
         sl = s[idx]
         inner = _slice_inner(sl)
@@ -54,6 +55,40 @@ def check_index(w, idx):
                                 f"{inner.width}")
     if sl.width != inner.width or sl.top != inner.top or sl.bot != inner.bot or sl.step != inner.step:
         return ("post.cached", f"Slice properties disagree with _slice_inner for {idx!r}")
+    return None
+
+
+def same_parent_histories(W, rnd, nrandom):
+    """(w, idx1, idx2): two indexings of ONE signal object, in this order"""
+    def idxs(w):
+        out = list(range(-w - 1, w + 1))
+        bounds = [None] + list(range(-w, w + 1))
+        for a in bounds:
+            for b in bounds:
+                for c in (None, 1, -1):
+                    out.append(slice(a, b, c))
+        return out
+    for w in range(1, min(W, 2) + 1):
+        ii = idxs(w)
+        for a in ii:
+            for b in ii:
+                yield (w, a, b)
+    for _ in range(nrandom):
+        w = rnd.randint(3, max(3, W))
+        ii = idxs(w)
+        yield (w, rnd.choice(ii), rnd.choice(ii))
+
+
+def check_same_parent(case):
+    """the meaning of an index does not depend on what the same object was indexed with before"""
+    import hdl21 as h
+    w, i1, i2 = case
+    s = h.Signal(width=w)
+    for k, idx in enumerate((i1, i2)):
+        r = check_index(w, idx, parent=s)
+        if r is not None:
+            return (f"hdl21.slice:_slice_inner/history.{r[0]}", f"after indexing the same signal with {i1!r}: {r[1]}"
+                    if k else r[1], {"same_parent": repr(case)})
     return None
 
 
@@ -248,6 +283,12 @@ def run(ctx):
              "{None,0,+-1..+-w}; distinct = distinct (width,index); all are non-trivial (each is a different index)",
         bound=f"W={W} exhaustive", key_of=lambda c: repr(c))
     rnd = random.Random(ctx.seed)
+    ctx.run_bounded(
+        "same-parent-histories", same_parent_histories(W, random.Random(ctx.seed + 5), 40000 if thorough else 6000),
+        check_same_parent,
+        rule="two indexings of ONE signal object in sequence (every ordered pair of ints / unit-step slices for widths 1-2, "
+             "seeded random pairs for widths 3-W): each must mean what it means on a fresh signal",
+        bound=f"widths<={W}, 2 indexings", key_of=repr)
     cases = itertools.chain(small_nested(), nested_cases(rnd, 20000 if thorough else 3000))
     ctx.run_bounded(
         "nested-resolution", cases,
@@ -260,6 +301,10 @@ def run(ctx):
 
 def replay(payload):
     inp = (payload.get("replay") or {}).get("input") or payload.get("input") or {}
+    if "same_parent" in inp:
+        r = check_same_parent(eval(inp["same_parent"]))
+        print("replay:", r)
+        return 1 if r else 0
     if "width" in inp and "index" in inp:
         r = check_index(inp["width"], eval(inp["index"], {"slice": slice}))
         print("replay:", r)
